@@ -113,6 +113,16 @@ func (s scenario) program() rt.Program {
 				outs := Q.Split(&wg, input, uint(s.N))
 				outputs = outs.AsArray()
 				joined = Q.Join(&wg, outs)
+				if s.Mutate != "" {
+					// the sequence handed to Join is the caller's again as soon as Join has returned
+					if l, ok := outs.(col.ListLike[col.QueueLike[int]]); ok {
+						if strings.HasPrefix(s.Mutate, "RemoveAll") {
+							l.RemoveAll()
+						} else {
+							l.ReverseValues()
+						}
+					}
+				}
 			}
 			ready.Done()
 			wg.Wait()
@@ -210,10 +220,13 @@ func (s scenario) program() rt.Program {
 // a sequence returned by a class function shares no storage with the collection).
 func ReturnedSequenceUnits(tier string) []engine.Unit {
 	var us []engine.Unit
-	for _, fn := range []string{"Fork", "Split"} {
+	for _, fn := range []string{"Fork", "Split", "SplitJoin"} {
 		for _, m := range []string{"RemoveAll", "Reverse", "RemoveAll-later", "Reverse-later"} {
 			for _, l := range []int{1, 2} {
-				if strings.HasSuffix(m, "-later") && l < 2 {
+				if strings.HasSuffix(m, "-later") && (l < 2 || fn == "SplitJoin") {
+					continue
+				}
+				if fn == "SplitJoin" && l == 1 && tier != "thorough" {
 					continue
 				}
 				if l == 2 && fn == "Fork" && tier != "thorough" && !strings.HasSuffix(m, "-later") {
